@@ -334,7 +334,7 @@ struct Synth {
     int map = (int)floor(pre); if (map > f.barkmap - 1) map = f.barkmap - 1;
     double om = M_PI * map / f.barkmap, cw = cos(om); double p, q, rp = 0, rq = 0;
     auto term = [&](int j, double &acc, double &r) { double c = cos(co[j]); double d = c - cw; double ad = 16 * EPSF + ce[j]; acc *= 4 * d * d; r += 2 * ad / (fabs(d) > 1e-300 ? fabs(d) : 1e-300) + 4 * EPSF; };
-    if (f.order & 1) { p = 1 - cw * cw; q = 0.25; for (int j = 0; j <= (f.order - 3) / 2; j++) term(2 * j + 1, p, rp); for (int j = 0; j <= (f.order - 1) / 2; j++) term(2 * j, q, rq); rp += 8 * EPSF; }
+    if (f.order & 1) { p = 1 - cw * cw; q = 0.25; for (int j = 0; j <= (f.order - 3) / 2; j++) term(2 * j + 1, p, rp); for (int j = 0; j <= (f.order - 1) / 2; j++) term(2 * j, q, rq); rp += 8 * EPSF / std::max(1e-300, fabs(1 - cw * cw)); }   // 1-cos^2 (libvorbis: 4-w*w) cancels next to omega = 0 and pi just like 1-+cos in the even case
     else { p = (1 - cw) / 2; q = (1 + cw) / 2; for (int j = 0; j <= (f.order - 2) / 2; j++) term(2 * j + 1, p, rp); for (int j = 0; j <= (f.order - 2) / 2; j++) term(2 * j, q, rq); rp += 8 * EPSF / std::max(1e-300, fabs(1 - cw)); rq += 8 * EPSF / std::max(1e-300, fabs(1 + cw)); }
     sum = p + q; rel = sum > 0 ? (fabs(p) * rp + fabs(q) * rq) / sum + 2 * EPSF : 1;
   }
